@@ -126,14 +126,26 @@ def _hebrew_setup(eng):
     eng.func_models[f] = model
 
 
-def _split_setup(o: int):
+def _split_setup(o: int, abstract_leap: bool = False):
     def setup(eng):
         from specs import packmodel
 
         packmodel.install(eng)
         if o in (4, 5):
             _hebrew_setup(eng)
+        if o == 8 and getattr(setup, "abstract_leap", False):
+            # Persian astronomical leap years are a 9378-entry bit table: in proofs that only need "leap is a function
+            # of the year" the table lookup is replaced by an uninterpreted predicate (the table itself is covered
+            # entry by entry by the G-mode year contracts)
+            import z3
 
+            from pyvc import sym
+            from pyoda_time.calendars._persian_year_month_day_calculator import _PersianAstronomicalYearMonthDayCalculator as PA
+
+            L = z3.Function("persian_astro_leap", z3.IntSort(), z3.BoolSort())
+            eng.func_models[vars(PA)["_is_leap_year"]] = lambda eng, self_, year: sym.mk_bool(L(sym.SInt.lift(year)))
+
+    setup.abstract_leap = abstract_leap
     return setup
 
 
